@@ -21,7 +21,12 @@ func unify(x, y *Type, m map[string]*Type, inProcess util.PtrPtrSet) *Type {
 		panic("not support recursive type")
 		// return nil
 	} else {
+		// the set is keyed by raw addresses and holds no reference: a pair may stay
+		// in it only while both types are alive on the current path, otherwise a
+		// shared sub-term, or a temporary whose address the allocator reuses after
+		// a collection, is mistaken for a cycle
 		inProcess.Add(x, y)
+		defer inProcess.Remove(x, y)
 	}
 
 	switch {
